@@ -91,14 +91,14 @@ var c07Trusted = map[string]string{
 
 // c07Entries are the decoder entry points (resolved by object identity; a missing one is an anchor failure).
 var c07Entries = map[string][]string{
-	"rtmp": {"(*Protocol).ReadMessage", "(*Protocol).DecodeMessage", "(*Protocol).ExpectPacket", "(*Protocol).ExpectMessage", "(*Handshake).ReadC0S0", "(*Handshake).ReadC1S1", "(*Handshake).ReadC2S2"},
-	"amf0": {"Discovery", "(*Object).UnmarshalBinary", "(*EcmaArray).UnmarshalBinary", "(*StrictArray).UnmarshalBinary", "(*Number).UnmarshalBinary", "(*String).UnmarshalBinary", "(*Boolean).UnmarshalBinary"},
-	"flv":  {"(*demuxer).ReadHeader", "(*demuxer).ReadTagHeader", "(*demuxer).ReadTag", "(*audioPackager).Decode", "(*videoPackager).Decode"},
-	"aac":  {"(*ADTSImpl).Decode", "(*ADTSImpl).SetASC", "(*AudioSpecificConfig).UnmarshalBinary"},
-	"avc":  {"(*NALUHeader).UnmarshalBinary", "(*NALU).UnmarshalBinary", "(*AVCDecoderConfigurationRecord).UnmarshalBinary", "(*AVCSample).UnmarshalBinary"},
-	"websocket": {"(*Conn).NextReader", "(*Conn).ReadMessage", "(*messageReader).Read"},
-	"json":      {"NewCommentReader$1", "(*commentReader).Read"},
-	"https/jose": {"ParseSigned", "ParseEncrypted", "(JsonWebSignature).Verify", "(JsonWebEncryption).Decrypt", "(*JsonWebKey).UnmarshalJSON"},
+	"rtmp":              {"(*Protocol).ReadMessage", "(*Protocol).DecodeMessage", "(*Protocol).ExpectPacket", "(*Protocol).ExpectMessage", "(*Handshake).ReadC0S0", "(*Handshake).ReadC1S1", "(*Handshake).ReadC2S2"},
+	"amf0":              {"Discovery", "(*Object).UnmarshalBinary", "(*EcmaArray).UnmarshalBinary", "(*StrictArray).UnmarshalBinary", "(*Number).UnmarshalBinary", "(*String).UnmarshalBinary", "(*Boolean).UnmarshalBinary"},
+	"flv":               {"(*demuxer).ReadHeader", "(*demuxer).ReadTagHeader", "(*demuxer).ReadTag", "(*audioPackager).Decode", "(*videoPackager).Decode"},
+	"aac":               {"(*ADTSImpl).Decode", "(*ADTSImpl).SetASC", "(*AudioSpecificConfig).UnmarshalBinary"},
+	"avc":               {"(*NALUHeader).UnmarshalBinary", "(*NALU).UnmarshalBinary", "(*AVCDecoderConfigurationRecord).UnmarshalBinary", "(*AVCSample).UnmarshalBinary"},
+	"websocket":         {"(*Conn).NextReader", "(*Conn).ReadMessage", "(*messageReader).Read"},
+	"json":              {"NewCommentReader$1", "(*commentReader).Read"},
+	"https/jose":        {"ParseSigned", "ParseEncrypted", "(JsonWebSignature).Verify", "(JsonWebEncryption).Decrypt", "(*JsonWebKey).UnmarshalJSON"},
 	"https/crypto/ocsp": {"ParseResponse", "ParseResponseForCert", "ParseRequest"},
 }
 
@@ -929,13 +929,13 @@ func storedThenLoaded(call *ssa.Call, v ssa.Value) bool {
 
 // c07Contracts: sites discharged by a contract of DESIGN Appendix A.3, each with its reason.
 var c07Contracts = map[string]string{
-	"amf0.(*objectBase).unmarshal|slice#1": "readOne returned a nil error, i.e. Discovery(p) accepted p, which requires len(p) >= 1 (Discovery's first test, proven by its own symbolic run)",
-	"rtmp.(*Protocol).readMessagePayload|make#1": "invariant of an attached unfinished message: len(Payload) < payloadLength (a changed length and a type-0 header mid-message are rejected: C02.reject; completed messages are detached: C02.complete), and min() with a chunk size >= 0",
+	"amf0.(*objectBase).unmarshal|slice#1":                "readOne returned a nil error, i.e. Discovery(p) accepted p, which requires len(p) >= 1 (Discovery's first test, proven by its own symbolic run)",
+	"rtmp.(*Protocol).readMessagePayload|make#1":          "invariant of an attached unfinished message: len(Payload) < payloadLength (a changed length and a type-0 header mid-message are rejected: C02.reject; completed messages are detached: C02.complete), and min() with a chunk size >= 0",
 	"https/jose/cipher.(*cbcAEAD).computeAuthTag|slice#4": "configuration, not input: the HMAC digest (SHA-256/384/512: 32/48/64 bytes, selected in NewCBCHMAC by the key size) is at least as long as the tag size stored beside it (16/24/32)",
-	"https/jose/cipher.KeyUnwrap|slice#2":               "i ranges over r, made with n = len(ciphertext)/8 - 1 elements (n >= 1 by the length guard at entry), so (i+1)*8 <= n*8 <= len(ciphertext) - 8",
-	"https/jose/cipher.KeyUnwrap|slice#10":              "out has n*8 bytes and i ranges over r (n elements), so i*8 <= n*8",
-	"https/jose/cipher.resize|slice#2":                   "head has n >= len(in) elements: every caller passes n = len(in) + k (checked: C07.bounds https/jose/cipher|resize|callers-pass-n>=len(in))",
-	"websocket.(*messageReader).Read|slice#2": "io.Reader contract of bufio.Reader.Read: 0 <= n <= len(b)",
+	"https/jose/cipher.KeyUnwrap|slice#2":                 "i ranges over r, made with n = len(ciphertext)/8 - 1 elements (n >= 1 by the length guard at entry), so (i+1)*8 <= n*8 <= len(ciphertext) - 8",
+	"https/jose/cipher.KeyUnwrap|slice#10":                "out has n*8 bytes and i ranges over r (n elements), so i*8 <= n*8",
+	"https/jose/cipher.resize|slice#2":                    "head has n >= len(in) elements: every caller passes n = len(in) + k (checked: C07.bounds https/jose/cipher|resize|callers-pass-n>=len(in))",
+	"websocket.(*messageReader).Read|slice#2":             "io.Reader contract of bufio.Reader.Read: 0 <= n <= len(b)",
 	// JSON+ scanner: firstMatch returns (-1,-1) or an index into flags with 0 <= pos <= len(data)-len(flags[index]) (bytes.Index post-condition);
 	// the four marker tables have equal length (C17.tables), and the (-1,-1) case returns before any use
 	"json.NewCommentReader$1|index#1": "index returned by firstMatch is a valid index of startMatches (loop variable of range flags; -1 case returned earlier)",
@@ -1452,7 +1452,7 @@ func checkEphemeralKeyValidated(c *Ctx) {
 
 // c07PanicGuards: functions whose panic is unreachable for wire data, with the guard (confirmed by reading).
 var c07PanicGuards = map[string]string{
-	"https/jose.mustSerializeJSON": "panics only if encoding/json cannot marshal a *rawHeader (a plain struct of strings and byte buffers: cannot fail); independent of the message bytes",
+	"https/jose.mustSerializeJSON":   "panics only if encoding/json cannot marshal a *rawHeader (a plain struct of strings and byte buffers: cannot fail); independent of the message bytes",
 	"https/jose/cipher.DeriveECDHES": "both panics test the peer's ephemeral key against the curve; the only caller decryptKey rejects a key that is not on the private key's curve first (checked: C07.panic ...|ephemeral-key-validated)",
 }
 
@@ -1651,8 +1651,8 @@ func checkTerm(c *Ctx, fns []*ssa.Function) {
 // c07Loops: loops whose exit argument was established by reading, keyed like the obligations.
 var c07Loops = map[string]string{
 	"https/jose/cipher.(*concatKDF).Read|loop#1": "each round appends a fresh digest: copy(out[copied:], hash) moves copied forward by min(len(hash), remaining) >= 1 because a hash.Hash digest is never empty; the loop ends when out is full (output size is the configured key size, not input)",
-	"amf0.(*objectBase).unmarshal|loop#1": "every iteration calls readOne, which returns an error on a short slice or advances the captured cursor by u.Size() >= 2 bytes; the loop ends with the input or at the end marker",
-	"amf0.(*objectBase).unmarshal|loop#2": "same cursor progress as loop#1, and bounded by maxElems appended properties",
+	"amf0.(*objectBase).unmarshal|loop#1":        "every iteration calls readOne, which returns an error on a short slice or advances the captured cursor by u.Size() >= 2 bytes; the loop ends with the input or at the end marker",
+	"amf0.(*objectBase).unmarshal|loop#2":        "same cursor progress as loop#1, and bounded by maxElems appended properties",
 }
 
 // loopBlocks is the natural loop of hdr: the header and every block that reaches one of its back edges without
